@@ -133,6 +133,22 @@ func (cl *c08client) run(kind byte, cmd string) (status string, searchHits []int
 				break
 			}
 			line := rest[:i]
+			// a literal: "{n}" CRLF n octets, then the rest of the response line
+			if lb := strings.LastIndexByte(line, '{'); lb >= 0 && strings.HasSuffix(line, "}") {
+				if n, ok := c08atoi(line[lb+1 : len(line)-1]); ok {
+					tail := rest[i+2:]
+					if len(tail) < n {
+						break // wait for the payload
+					}
+					j := strings.Index(tail[n:], "\r\n")
+					if j < 0 {
+						break
+					}
+					// (the payload and the remainder of the line carry nothing the
+					// observer looks at)
+					i += 2 + n + j
+				}
+			}
 			cl.seen += i + 2
 			if strings.HasPrefix(line, tag+" ") {
 				f := strings.Fields(line)
@@ -245,7 +261,9 @@ func VerifC08History() {
 		cl := cls[nd.Choice(S)]
 		n := 1 + nd.Choice(nd.Param("nmax")) // message number 1..nmax (may exceed the count)
 		ns := c08itoa(n)
-		switch nd.Choice(12) {
+		switch nd.Choice(13) {
+		case 12:
+			cl.run('F', "FETCH "+ns+" (BODY[TEXT])")
 		case 0:
 			cl.run('O', "APPEND m {"+c08itoa(len(c08msg))+"+}\r\n"+c08msg)
 		case 1:
